@@ -24,7 +24,7 @@ ASSUMPTIONS = ["model.predict on all points is the reference for the per-design 
 N = {"quick": 50, "thorough": 1500}
 REQUIRE = {"quick": {"updated_checked": 3000, "untouched_checked": 3000, "single_design_updates": 150,
                      "intersect_checked": 500, "gp_updates": 60, "single_design_gp_updates": 20,
-                     "invariant_evals": 5000, "adaptive_updates": 50, "direct_intersect_events": 500}}
+                     "invariant_evals": 5000, "adaptive_updates": 50, "direct_intersect_events": 500, "inrun_runs": 20}}
 TIMEOUT = {"quick": 900, "thorough": 3600}
 
 
@@ -226,6 +226,21 @@ def direct_intersect(mon, rng):
         pass
 
 
+def inrun(mon, rng, real=False):
+    """the same hook inside real algorithm runs: every modeling() call of every round is checked"""
+    from vmon import runs
+
+    variant = str(rng.choice(["VOGP", "PaVeBaGP-IH", "PaVeBaGP-DE", "PartialGP-rect", "EpsilonPAL", "PaVeBa", "Auer-emp"]))
+    case, order = runs.make_case(rng, variant, K=int(rng.integers(1, 8)), allow_Kgtm=False, contraction=float(rng.choice([8, 32])))
+    if real and runs.VARIANTS[variant]["algo"] in ("VOGP", "EpsilonPAL", "PaVeBaGP", "PaVeBaPartialGP"):
+        case["model"] = "real"
+        case["noise_var"] = 1e-4 * case["scale"] ** 2
+    case["max_rounds"] = 25
+    tr = runs.run_case(case, order, mon, max_extra_steps=0, watch_updates=True)
+    mon.count("inrun_runs")
+    mon.event(case_hash("inrun", case["seed"]), True, f"inrun/{variant}")
+
+
 def shard(mon, tier, rng, shard_no, nshards):
     has_ic = patching.install_region_invariant()
     mon.notes["icontract"] = has_ic
@@ -239,4 +254,6 @@ def shard(mon, tier, rng, shard_no, nshards):
         adaptive_sequence(mon, rng)
         for _ in range(4):
             direct_intersect(mon, rng)
+    for k in range(2 if tier == "quick" else 30):
+        inrun(mon, rng, real=(tier == "thorough" and k % 5 == 0))
     mon.count("invariant_evals", patching.INV_EVALS[0])
